@@ -231,6 +231,11 @@ func twinsC08(src *choice.Src, w *World, envReads []string) (tw []*World, dims [
 	}
 	{
 		t := w.Clone()
+		t.ArgStyle = 1 + src.Draw("twin.argstyle", 3)
+		add("command-line-spelling", t)
+	}
+	{
+		t := w.Clone()
 		t.SlowSeed = seed64(src, "twin.slow") | 1
 		add("latency", t)
 	}
@@ -409,6 +414,29 @@ func CheckC08(t Target, src *choice.Src, st *Stats) *Violation {
 		if rp.Exit != base.Exit || rp.Out.Sha != base.Out.Sha {
 			return &Violation{Property: "C08", Sig: "previous-output:out", Detail: "the generated file depends on what the -o path held before (the previous generation of the same configuration by another build)\n" + explain(base, rp),
 				Worlds: []*World{w, pw}, Mode: "twin-out", Expect: []string{digest(base), digest(rp)}, Choices: genDraws}
+		}
+	}
+	// ... or what `build --stub` of the same configuration left there (stub, then the real thing, at one path)
+	if base.Exit == 0 && w.OutKind == "file" && base.Out.Exists && len(w.Faults) == 0 && !w.HasFlag("--stub") && src.Chance("twin.afterstub", 1, 3) {
+		sw := w.Clone()
+		sw.PreOut = nil
+		sw.Flags = append(sw.Flags, "--stub")
+		sr := Exec(t, sw)
+		if st != nil {
+			st.note(sw, sr)
+		}
+		if sr.Exit == 0 && sr.Out.Exists {
+			pw := w.Clone()
+			pw.PreOut = &InFile{Path: w.Out, Content: sr.Out.Data, Mode: 0644}
+			rp := Exec(t, pw)
+			if st != nil {
+				st.note(pw, rp)
+				st.Dims["previous-output-is-a-stub"]++
+			}
+			if rp.Exit != base.Exit || rp.Out.Sha != base.Out.Sha {
+				return &Violation{Property: "C08", Sig: "previous-output:out:after-a-stub", Detail: "the generated file depends on what the -o path held before (the stub of the same configuration)\n" + explain(base, rp),
+					Worlds: []*World{w, pw}, Mode: "twin-out", Expect: []string{digest(base), digest(rp)}, Choices: genDraws}
+			}
 		}
 	}
 	// key order twin: same draws, different key order in every mapping of every file
